@@ -4,7 +4,9 @@ import os
 ID = "C11"
 LEVEL = "proof"
 # translator tie: these kernels are regenerated from /repo on every run and re-proved equal to the model (coq/C11/GenEquiv.v)
-TRANSLATE = [("translate/kernels_chrono.json", "coq/Gen/Gen_chrono.v")]
+TRANSLATE = [("translate/kernels_chrono.json", "coq/Gen/Gen_chrono.v"),
+             # the calendar TYPES (constructors, conversions, ok(), + months / years): coq/C11/GenEquiv2.v
+             ("translate/kernels_calendar.json", "coq/Gen/Gen_calendar.v")]
 HARNESSES = [
     {"name": "main", "src": "harness.cpp", "flags": ["-O1", "-DTETL_ENABLE_CONTRACT_CHECKS=1"]},
     # the same cases under ASan + UBSan: a signed overflow or an out-of-bounds table read inside the documented domain
